@@ -1,5 +1,4 @@
 import CkcVerif.Spec.Key
-import CkcVerif.Spec.Hand
 import CkcVerif.Lemmas.Bridge
 /-! **W2** (specification only): every feasible class is realised by five distinct real cards. -/
 namespace Lemmas
